@@ -246,3 +246,45 @@ func (r *routingPublisher) Publish(topic string, messages ...*Message) error {
 }
 
 func (r *routingPublisher) Close() error { return nil }
+
+// HarnessC02StopInFlight: the handler is stopped (Handler.Stop: its context ends, the router stays open) while
+// the subscriber still has messages in flight. Whatever the Router took from the subscription before the
+// subscription ended is passed to the handler chain and settled exactly once; nothing is taken and thrown away.
+func HarnessC02StopInFlight() {
+	r, _ := NewRouter(RouterConfig{}, watermill.NopLogger{})
+	sub := &countingSubscriber{}
+	var mu sync.Mutex
+	handled := map[*Message]int{}
+	hh := r.AddNoPublisherHandler("h", "in", sub, func(m *Message) error {
+		mu.Lock()
+		handled[m]++
+		mu.Unlock()
+		return nil
+	})
+	r.isRunning = true
+	ctx, cancel := context.WithCancel(context.Background())
+	defer cancel()
+	vrt.Assert(r.RunHandlers(ctx) == nil, "handlers started")
+	<-hh.Started()
+	msgs := []*Message{NewMessage("a", nil), NewMessage("b", nil)}
+	go func() {
+		vrt.MayBlock() // the subscription may end before everything was emitted
+		for _, m := range msgs {
+			sub.chans[0] <- m
+		}
+	}()
+	hh.Stop()
+	<-hh.Stopped()
+	vrt.AtQuiescence(func() {
+		sub.mu.Lock()
+		taken := append([]*Message(nil), sub.delivered...)
+		sub.mu.Unlock()
+		for _, m := range taken {
+			vrt.Assert(handled[m] == 1, "a message the Router took from the subscriber is passed to the handler chain exactly once")
+			vrt.Assert(settlementOf(m) == 1, "and settled (Ack: the chain succeeded)")
+		}
+		for _, m := range msgs {
+			vrt.Assert(handled[m] <= 1 && settlementOf(m) != 3, "never twice")
+		}
+	})
+}
